@@ -1746,14 +1746,17 @@ func findRequiredLandmarkChainLeftToRight(r *Runner, chain *syntax.RequiredLandm
 			return false
 		}
 
-		nextStart := first.End
+		// Later landmarks are only required to exist somewhere after the earliest position at
+		// which the previous landmark can end: the occurrence found here is merely the leftmost
+		// one, and a bounded set repetition or another alternative may end before its greedy end.
+		nextStart := first.CoreStart + minRequiredLandmarkLength(chain.Landmarks[0])
 		for i := 1; i < len(chain.Landmarks); i++ {
 			landmark, ok := findNextRequiredLandmarkRunes(r.Runtext, nextStart, r.Runtextend, chain.Landmarks[i])
 			if !ok {
 				r.Runtextpos = r.Runtextend
 				return false
 			}
-			nextStart = landmark.End
+			nextStart = landmark.CoreStart + minRequiredLandmarkLength(chain.Landmarks[i])
 		}
 
 		candidate := first.Start
@@ -1773,6 +1776,24 @@ func findRequiredLandmarkChainLeftToRight(r *Runner, chain *syntax.RequiredLandm
 
 	r.Runtextpos = r.Runtextend
 	return false
+}
+
+// minRequiredLandmarkLength is the fewest characters any alternative of the landmark consumes.
+func minRequiredLandmarkLength(landmark syntax.RequiredLandmark) int {
+	minLen := -1
+	for _, alt := range landmark.Alternatives {
+		l := alt.MinRepeat
+		if len(alt.Literal) > 0 {
+			l = len(alt.Literal)
+		}
+		if minLen < 0 || l < minLen {
+			minLen = l
+		}
+	}
+	if minLen < 0 {
+		return 0
+	}
+	return minLen
 }
 
 type requiredLandmarkMatch struct {
